@@ -113,11 +113,13 @@ Qed.
 (* filter-condition oracle *)
 Theorem bits_ok_iff : forall tbl m bits,
   c12_bits_ok tbl m bits = true <->
-  forall k b, In (k, b) bits -> b = cond_of tbl m k.
+  forall k b, In (k, b) bits -> exists f, lookup_cond k tbl = Some f /\ b = cond_holds f m.
 Proof.
   intros. unfold c12_bits_ok. rewrite forallb_forall. split.
-  - intros H k b Hin. specialize (H (k, b) Hin). cbn in H. now apply eqb_prop in H.
-  - intros H [k b] Hin. cbn. rewrite (H k b Hin). apply eqb_reflx.
+  - intros H k b Hin. specialize (H (k, b) Hin). cbn [fst snd] in H.
+    destruct (lookup_cond k tbl) as [f|]; [|discriminate]. exists f. split; [reflexivity|].
+    now apply eqb_prop in H.
+  - intros H [k b] Hin. cbn [fst snd]. destruct (H k b Hin) as (f & -> & ->). apply eqb_reflx.
 Qed.
 
 Theorem stress_ok_iff : forall cq cs ts statuses threads,
